@@ -149,9 +149,16 @@ func (s *ClientSideCompositeSyncer) Sync(ctx context.Context, cm *claim.Unstruct
 	// This ensures we don't leak an XR. We could leak an XR if we created an XR
 	// then crashed before saving a reference to it. We'd create another XR on
 	// the next reconcile.
+	//
+	// We also update the claim when it already references an XR that doesn't
+	// exist (yet, or any more). The update doesn't change the claim in that
+	// case, but the API server will reject it if we're reconciling an old claim,
+	// e.g. due to a stale cache: the claim may since have been deleted (and its
+	// XR with it), or deleted and recreated under the same name. We don't want
+	// to (re)create an XR on behalf of a claim that doesn't exist.
 	existing := cm.GetResourceReference()
 	proposed := xr.GetReference()
-	if !cmp.Equal(existing, proposed) {
+	if !cmp.Equal(existing, proposed) || !meta.WasCreated(xr) {
 		cm.SetResourceReference(proposed)
 		if err := s.client.Update(ctx, cm); err != nil {
 			return errors.Wrap(err, errUpdateClaim)
